@@ -277,8 +277,22 @@ class Lexer:
             # A character constant may be an escaped sequence
             # We assume a single alpha-numerical character or space
             if self.read() == "\\" and self.read(2).isprintable():
-                value = self.read(2)
+                start = self.pos
                 self.pos += 2
+
+                # Octal and hexadecimal escapes may have several digits
+                if self.string[start + 1] == "x":
+                    hexdigits = "0123456789abcdefABCDEF"
+                    while self.read() and self.read() in hexdigits:
+                        self.pos += 1
+                elif self.string[start + 1] in "01234567":
+                    while (
+                        self.pos < start + 4
+                        and self.read()
+                        and self.read() in "01234567"
+                    ):
+                        self.pos += 1
+                value = self.string[start : self.pos]
             elif self.read().isprintable():
                 value = self.read()
                 self.pos += 1
@@ -2003,7 +2017,25 @@ class ExpressionEvaluator(Parser):
         # Convert from character literals to integer value.
         try:
             constant = self.match_type(CharacterConstant)
-            return np.int64(ord(constant.token))
+            char = constant.token
+            if char.startswith("\\"):
+                escapes = {
+                    "a": 7,
+                    "b": 8,
+                    "f": 12,
+                    "n": 10,
+                    "r": 13,
+                    "t": 9,
+                    "v": 11,
+                }
+                if char[1] == "x":
+                    return np.int64(int(char[2:], 16))
+                elif char[1] in "01234567":
+                    return np.int64(int(char[1:], 8))
+                elif char[1] in escapes:
+                    return np.int64(escapes[char[1]])
+                char = char[1]
+            return np.int64(ord(char))
         except ParseError:
             self.pos = initial_pos
 
